@@ -7,6 +7,7 @@ import (
 	"fmt"
 	"regexp"
 
+	"github.com/microsoft/yardl/tooling/internal/formatting"
 	"github.com/microsoft/yardl/tooling/internal/validation"
 )
 
@@ -103,6 +104,7 @@ func validateRecordFieldNames(env *Environment, errorSink *validation.ErrorSink)
 		}
 
 		fields := make(map[string]bool)
+		generatedNames := make(map[string]string)
 
 		for _, field := range record.Fields {
 			if !memberNameRegex.MatchString(field.Name) {
@@ -112,6 +114,13 @@ func validateRecordFieldNames(env *Environment, errorSink *validation.ErrorSink)
 			if _, found := fields[field.Name]; found {
 				errorSink.Add(validationError(field, "a field with the name '%s' is already defined on the record '%s'", field.Name, record.Name))
 			}
+
+			// All backends name the generated member after the snake_cased field name
+			generatedName := formatting.ToSnakeCase(field.Name)
+			if other, found := generatedNames[generatedName]; found && other != field.Name {
+				errorSink.Add(validationError(field, "the fields '%s' and '%s' of the record '%s' would both be named '%s' in generated code", other, field.Name, record.Name, generatedName))
+			}
+			generatedNames[generatedName] = field.Name
 
 			fields[field.Name] = true
 		}
